@@ -963,6 +963,10 @@ pub struct MockScn {
     /// exactly once, each credential in queue order
     #[serde(default)]
     pub concurrent: Option<(MockIssue, MockIssue, u64)>,
+    /// while the two concurrent issuances run, the application queues more salts (at this
+    /// scheduling step, this many): they belong behind everything queued before
+    #[serde(default)]
+    pub late_salts: Option<(usize, usize)>,
 }
 
 fn nasty_string(rng: &mut Rng) -> String {
@@ -1061,7 +1065,8 @@ pub fn gen_c16(rng: &mut Rng, _tier: Tier) -> Result<Value, serde_json::Error> {
     } else {
         None
     };
-    serde_json::to_value(MockScn { kind: "mock".into(), check: "C16".into(), entropy_seed: rng.next_u64(), clock_base: now, key, queue, issuances, concurrent })
+    let late_salts = if concurrent.is_some() && rng.bool() { Some((rng.usize(14), 1 + rng.usize(3))) } else { None };
+    serde_json::to_value(MockScn { kind: "mock".into(), check: "C16".into(), entropy_seed: rng.next_u64(), clock_base: now, key, queue, issuances, concurrent, late_salts })
 }
 
 #[cfg(not(feature = "mock"))]
@@ -1367,7 +1372,23 @@ pub fn execute_c16(scn_v: &Value) -> RunReport {
             let mut rng = Rng::new(*sched);
             let mut res: [Option<Option<String>>; 2] = [None, None];
             let mut guard = 0;
+            let mut late: Vec<String> = Vec::new();
             while res.iter().any(|r| r.is_none()) && guard < 100_000 {
+                if let Some((at, n)) = scn.late_salts {
+                    if guard == at && late.is_empty() {
+                        // (all nodes are parked outside the lock: scheduling points are taken
+                        // before it is acquired)
+                        let mut q = sd_jwt_rs::utils::SALTS.lock().unwrap_or_else(|e| e.into_inner());
+                        for i in 0..n {
+                            let sl = format!("bGF0ZS1zYWx0LXF1ZXVlZC0{:02}-late", i);
+                            q.push_back(sl.clone());
+                            late.push(sl);
+                        }
+                        if pass == 0 {
+                            cx.rep.count("fault.salts_queued_while_issuances_run");
+                        }
+                    }
+                }
                 guard += 1;
                 let runnable = w.rt.runnable();
                 let cand: Vec<usize> = (0..2).filter(|k| res[*k].is_none() && runnable.contains(&nodes[*k])).collect();
@@ -1420,7 +1441,9 @@ pub fn execute_c16(scn_v: &Value) -> RunReport {
                         p.windows(2).all(|w| w[0] <= w[1])
                     });
                     let left = queue_now();
-                    if got != want_sorted || !in_order || left.as_slice() != &before[n.min(before.len())..] {
+                    // what is left: the rest of what was queued before, then what was queued meanwhile
+                    let expected_left: Vec<String> = before[n.min(before.len())..].iter().cloned().chain(late.iter().cloned()).collect();
+                    if got != want_sorted || !in_order || left != expected_left {
                         cx.violate(
                             "C16",
                             "queue-conservation",
